@@ -120,6 +120,7 @@ class Engine:
         self.solver = None
         self.reset()
         self.while_bound = 64
+        self.for_bound = 400
 
     def reset(self):
         if self.solver is not None:
@@ -672,7 +673,7 @@ class _SetBase:
                 for h, v in E.inst(x):
                     m[v] = d.or_(m.get(v, FALSE), d.and_(g, h))
             return m
-        raise Unsupported('set operand %r' % (type(other),))
+        raise TypeError('unsupported operand type for a set operation: %r' % (type(other).__name__,))
 
     def _binop(self, other, fn, keys='both'):
         d = E.dag
@@ -1339,8 +1340,11 @@ def ITER(x):
             return GList._from([(g, tuple(v)) for g, v in x.alts]).iterate()
         out = []
         for g, v in x.alts:
-            for h, e in ITER(v):
-                out.append((d.and_(g, h), e))
+            if not E.feasible(g):
+                continue
+            with _Guarded(g):
+                for h, e in ITER(v):
+                    out.append((d.and_(g, h), e))
         return out
     if x is BOTTOM:
         return []
@@ -1615,12 +1619,18 @@ class _Iter:
 def FOR(fr, lp, iterable):
     """yield (ctx, value) for each guarded element"""
     d = E.dag
+    count = 0
     for g, v in ITER(iterable):
         if E.known_false(g):
             continue
         gg = d.all_([g, lp.broken ^ 1, fr.returned ^ 1])
         if d.and_(E.g(), gg) == FALSE:
             continue
+        count += 1
+        if count > E.for_bound:
+            # a very long loop whose guard is still satisfiable: stop unrolling and leave an unwinding obligation
+            E.unwind.append((d.and_(E.g(), gg), 'for-loop with more than %d symbolic iterations' % E.for_bound))
+            return
         yield _Iter(gg, lp), v
 
 
@@ -1852,15 +1862,13 @@ def SETITEM(obj, key, value):
         return obj.setitem(key, value)
     if isinstance(obj, U):
         for g, v in obj.alts:
-            E.push(g)
-            try:
-                SETITEM(v, key, value)
-            finally:
-                E.pop()
+            if E.feasible(g):
+                with _Guarded(g):
+                    SETITEM(v, key, value)
         return
-    if E.g() != TRUE or is_sym(key) or is_sym(value):
-        raise Unsupported('setitem on native %r under guard / symbolic' % (type(obj),))
-    obj[key] = value
+    if E.g() != TRUE or deep_sym(key):
+        raise Unsupported('setitem on native %r under guard / with a symbolic key' % (type(obj),))
+    obj[key] = value        # a native container may hold engine values as long as the store is unconditional
 
 
 def DELITEM(obj, key):
@@ -1874,11 +1882,9 @@ def DELITEM(obj, key):
 def SETATTR(obj, name, value):
     if isinstance(obj, U):
         for g, v in obj.alts:
-            E.push(g)
-            try:
-                SETATTR(v, name, value)
-            finally:
-                E.pop()
+            if E.feasible(g):
+                with _Guarded(g):
+                    SETATTR(v, name, value)
         return
     g = E.g()
     if g == TRUE:
@@ -1924,8 +1930,9 @@ def BINOP(op, a, b):
         for g, v in E.alts(a):
             for h, w in E.alts(b):
                 gh = d.and_(g, h)
-                if gh != FALSE:
-                    res.append((gh, BINOP(op, v, w)))
+                if gh != FALSE and E.feasible(gh):
+                    with _Guarded(gh):
+                        res.append((gh, BINOP(op, v, w)))
         return E.mk(res)
     if is_sym(a) or is_sym(b):
         return E.lift(_BIN[op], [a, b])
@@ -1946,11 +1953,9 @@ def IOP(op, a, b):
         return a
     if isinstance(a, U) and any(isinstance(v, (GSet, GList)) for _, v in a.alts):
         for g, v in a.alts:
-            E.push(g)
-            try:
-                IOP(op, v, b)
-            finally:
-                E.pop()
+            if E.feasible(g):
+                with _Guarded(g):
+                    IOP(op, v, b)
         return a
     return BINOP(op, a, b)
 
@@ -2260,6 +2265,11 @@ def printed(pred):
     return d.any_(d.and_(g, d.any_(h for h, t in E.alts(text) if pred(t))) for g, text in OUTPUT)
 
 
+@override(_b.id)
+def _id(x):
+    return id(x)        # identity of the (symbolic) object itself; never instantiates
+
+
 @override(_b.str)
 def _str(x=''):
     if is_sym(x):
@@ -2341,6 +2351,13 @@ class _Itertools:
         return list(_it.combinations_with_replacement([v for _, v in items], r))
 
     @staticmethod
+    def groupby(it, key=None):
+        # consecutive groups of a (possibly symbolic) sequence: computed per concrete instance of the sequence
+        def groups(l):
+            return [(k, list(g)) for k, g in _it.groupby(l, key)]
+        return E.lift(groups, [_list(it)])
+
+    @staticmethod
     def chain(*its):
         out = []
         for i in its:
@@ -2361,7 +2378,7 @@ def _chain_from_iterable(its):
 
 
 _Itertools.chain.from_iterable = _chain_from_iterable
-for _n in ('product', 'combinations', 'combinations_with_replacement', 'chain'):
+for _n in ('product', 'combinations', 'combinations_with_replacement', 'chain', 'groupby'):
     getattr(_Itertools, _n).__lifted__ = True
 _chain_from_iterable.__lifted__ = True
 ITERTOOLS = _Itertools
@@ -2443,11 +2460,11 @@ def UNPACK(v, n):
     if isinstance(v, U):
         parts = []
         for g, w in v.alts:
-            E.push(g)
-            try:
-                parts.append((g, UNPACK(w, n)))
-            finally:
-                E.pop()
+            if E.feasible(g):
+                with _Guarded(g):
+                    parts.append((g, UNPACK(w, n)))
+        if not parts:
+            return [BOTTOM] * n
         return [E.mk([(g, p[i]) for g, p in parts]) for i in range(n)]
     if v is BOTTOM:
         return [BOTTOM] * n
